@@ -42,17 +42,20 @@ INV_WHAT = {
 }
 # events that mean the driver (or the engine) stopped working rather than misbehaved: undecided, with the log kept
 INFRA_EVENTS = ("Hung", "DiskErr", "ChildErr", "ChildExit", "AppendErr", "BlRunErr")
-# actions that belong to another role / durability mode / the S->I instance
-NOT_IN_EVERY_INSTANCE = ("DoWrite", "DoWriteLazy", "DoNowBegin", "DoNowFinish", "DoWriteFail", "DoWriteReplica", "ExtAppend",
-                         "TxCommit", "BlWrite", "BlSync", "BlCommit", "ReplayDone", "Desync", "ReadCommitLow", "Close",
-                         "DoWriteCore", "DoWriteLazyCore", "DoNowBeginCore", "DoNowFinishCore", "DoWriteFailCore",
-                         "DoWriteReplicaCore", "ExtAppendCore", "TxCommitCore", "BlWriteCore", "BlSyncCore", "BlCommitCore",
-                         "ReplayDoneCore", "DesyncCore", "ReadCommitLowCore", "CloseCore", "DoAppendBase", "DoQueueEffect", "DoQueue", "DoQueueCore",
-                         "DoWriteFailBase", "TxCommitEffect", "ViewA", "ViewCore", "DoRead", "DoReadCore")
+# actions every instance of a role / durability mode must exercise (vacuity, checked with -coverage)
+COMMON = {"DoRead", "ViewA", "ReadApply", "ReadSkip", "ReadCommit", "Crash", "Restart"}
+LIVE = {
+    "wait": COMMON | {"DoWrite", "DoQueue", "DoWriteFail", "TxCommit", "BlWrite", "BlSync", "BlCommit", "ReplayDone", "Close"},
+    "nowait": COMMON | {"DoWriteLazy", "DoNowBegin", "DoQueue", "DoNowFinish", "DoWriteFail", "BlWrite", "BlSync", "BlCommit",
+                        "ReplayDone", "Close"},
+    "replica": COMMON | {"ExtAppend", "DoWriteReplica"},
+}
 
 
 def tlc_many(ctx, jobs):
-    """jobs: list of (kwargs for ctx.tlc); run concurrently, results in order."""
+    """jobs: list of (args, kwargs) for ctx.tlc; run concurrently, results in order."""
+    if not jobs:
+        return []
     with concurrent.futures.ThreadPoolExecutor(max_workers=max(1, min(3, len(jobs)))) as ex:
         futs = [ex.submit(ctx.tlc, *a, **kw) for a, kw in jobs]
         return [f.result() for f in futs]
@@ -192,28 +195,34 @@ def _run(ctx, scratch):
     W = max(2, NCPU // 3)
     # 1. model checking of the design
     consts = {"StartSize": 24, "SvcSizes": [20], "Size(w)": "12+4w"}
-    live = (("SqliteEngineMC", "SqliteEngine_live.cfg"), dict(workers=W, timeout=3000, heap="4g", constants=consts,
+    live = ("wait", ("SqliteEngineMC", "SqliteEngine_live.cfg"), dict(workers=W, timeout=3000, heap="4g", constants=consts,
             name="MC liveness: a waiting Do is acknowledged unless the process is killed (weakly fair binlog writer)"))
-    def mc(cfg, name, cov=False):
-        return (("SqliteEngineMC", cfg), dict(workers=W, timeout=6000 if th else 1500, heap="6g", coverage=cov,
-                                            name=name, constants=consts))
+
+    def mc(kind, cfg, name):
+        return (kind, ("SqliteEngineMC", cfg), dict(workers=W, timeout=6000 if th else 1500, heap="6g", coverage=th,
+                                                  name=name, constants=consts))
     if th:
-        jobs = [mc("SqliteEngine_mc_big.cfg", "MC WaitCommit master (4 writes, 1 failing, 2 readers, 2 crashes)", True),
-                mc("SqliteEngine_mc_mid.cfg", "MC WaitCommit master (3 writes, 1 failing, 2 readers, 2 crashes, crc32 records)", True),
-                mc("SqliteEngine_nowait_big.cfg", "MC NoWaitCommit master (4 writes, 1 failing, 2 readers, 2 crashes)", True),
-                mc("SqliteEngine_replica_big.cfg", "MC replica (4 writes, 1 reader, 1 crash, crc32 records)", True),
+        jobs = [mc("wait", "SqliteEngine_mc_big.cfg", "MC WaitCommit master (4 writes, 1 failing, 2 readers, 2 crashes)"),
+                mc("wait", "SqliteEngine_mc_mid.cfg", "MC WaitCommit master (3 writes, 1 failing, 2 readers, 2 crashes, crc32 records)"),
+                mc("nowait", "SqliteEngine_nowait_big.cfg", "MC NoWaitCommit master (4 writes, 1 failing, 2 readers, 2 crashes)"),
+                mc("replica", "SqliteEngine_replica_big.cfg", "MC replica (4 writes, 1 reader, 1 crash, crc32 records)"),
                 live]
     else:
-        jobs = [mc("SqliteEngine_mc.cfg", "MC WaitCommit master (3 writes, 1 failing, 1 reader, 1 crash, crc32 records)"),
-                mc("SqliteEngine_nowait.cfg", "MC NoWaitCommit master (3 writes, 1 failing, 1 reader, 1 crash)"),
-                mc("SqliteEngine_replica.cfg", "MC replica (3 writes, 1 crash, crc32 records)"),
+        jobs = [mc("wait", "SqliteEngine_mc.cfg", "MC WaitCommit master (3 writes, 1 failing, 1 reader, 1 crash, crc32 records)"),
+                mc("nowait", "SqliteEngine_nowait.cfg", "MC NoWaitCommit master (3 writes, 1 failing, 1 reader, 1 crash)"),
+                mc("replica", "SqliteEngine_replica.cfg", "MC replica (3 writes, 1 crash, crc32 records)"),
                 live]
-    for res in tlc_many(ctx, jobs):
+    model_only = os.environ.get("VERIF_C17_SKIP_MC") == "1" or os.environ.get("VERIF_SELFTEST") == "1"
+    if model_only:   # the exhaustive stage judges the specification, not the tree under test, and ignores the seed
+        jobs = []
+        ctx.log("exhaustive configurations skipped (selftest / VERIF_C17_SKIP_MC)")
+    for (kind, _a, kw), res in zip(jobs, tlc_many(ctx, [(a, kw) for _k, a, kw in jobs])):
         ctx.require_model_ok(res, "SqliteEngine invariants")
-        dead = [a for a in res.zero_cov if a not in NOT_IN_EVERY_INSTANCE]
-        if dead:
-            ctx.log("WARNING: actions never taken: %s" % dead)
-    ctx.ev.set("exhaustive", True)
+        if kw.get("coverage"):
+            dead = sorted(a for a in LIVE[kind] if res.coverage.get(a, 0) == 0)
+            if dead:
+                raise Infra("vacuous model checking: actions never taken in %s: %s" % (kw["name"], dead))
+    ctx.ev.set("exhaustive", not model_only)
 
     # 2. S->I: the reading path
     beh = ctx.tlc("SqliteEngineMC", "SqliteEngine_beh_big.cfg" if th else "SqliteEngine_beh.cfg", timeout=3000, heap="6g",
